@@ -181,6 +181,7 @@ struct ares_query {
   size_t        timeouts;   /* number of timeouts we saw for this request */
   ares_bool_t   no_retries; /* do not perform any additional retries, this is
                              * set when a query is to be canceled */
+  ares_bool_t   cancel_pending; /* marked by ares_cancel() for cancellation */
 };
 
 struct apattern {
